@@ -50,7 +50,7 @@ COMMON_FRAMES = [U('pyvc.frames', 'render_write_frame', 'render.write_frame'),
                  U('pyvc.frames', 'digest_injective', 'digest.distinguishes_options')]
 S_MORE = [K("k3::S-Switch"), K("k3::S-Case-Condition")]
 S_COMMENT = [K("k3::S-Comment-noninterp"), K("k3::S-Comment-drop"), K("k3::S-Comment-interp")]
-TAL_BASIC = [K("k3::S-Define"), K("k3::S-Define-clauses"), K("k3::S-Condition"), K("k3::S-Content"),
+TAL_BASIC = [K("k3::S-Define"), K("k3::S-Define-clauses"), K("k3::S-Define-tuple"), K("k3::S-Condition"), K("k3::S-Content"),
              K("k3::S-Replace"), K("k3::S-Structure"), K("k3::S-OmitTag"),
              K("k3::S-OmitTag-empty"), K("k3::S-OmitTag-selfclosing"),
              K("k3::S-Attribute"), K("k3::S-Attribute-dict"), K("k3::S-Literal"), K("k3::S-Combined"), K("k3::S-Repeat")]
@@ -100,7 +100,7 @@ PROPS = {
         "Emitted save/assign/restore brackets of tal:define and tal:repeat are proved to restore the "
         "outer binding (or undefinedness) on normal exit, globals are proved to persist in scope and "
         "in the render-wide context, and macro calls receive a copy of the scope and merge globals back.",
-        [K("k3::S-Define"), K("k3::S-Define-clauses"), K("k3::S-Repeat"), K("k3::S-UseExternal"), K("k3::S-MacroUseInternal"),
+        [K("k3::S-Define"), K("k3::S-Define-clauses"), K("k3::S-Define-tuple"), K("k3::S-Repeat"), K("k3::S-UseExternal"), K("k3::S-MacroUseInternal"),
          K("k3::S-Repeat-reserved"), K("k3::S-Define-reserved"), K("k3::S-Define-econtext"),
          K("k3::S-OnError-Define"), K("k3::S-GlobalInLocal"), K("k3::S-LambdaScope"), FRESH] +
         [K("utils.py::Scope." + m) for m in ("get", "__getitem__", "__contains__", "get_name", "set_global", "copy")],
